@@ -9,6 +9,7 @@ import (
 
 	pb "github.com/alpacahq/marketstore/v4/proto"
 	"github.com/alpacahq/marketstore/v4/utils/log"
+	"github.com/alpacahq/marketstore/v4/utils/verifhook"
 )
 
 const (
@@ -69,6 +70,7 @@ func (rs *GRPCReplicationServer) GetWALStream(_ *pb.GetWALStreamRequest, stream 
 	}
 
 	// when an error occurred / client connection is closed, close the channel
+	verifhook.At("repl.stream.closing")
 	delete(rs.StreamChannels, clientAddr)
 	close(streamChannel)
 	log.Info(fmt.Sprintf("[master] closed replication connection: %v", clientAddr))
@@ -80,6 +82,7 @@ func (rs *GRPCReplicationServer) SendReplicationMessage(transactionGroup []byte)
 	// send a replication message to each replica
 	for ip, channel := range rs.StreamChannels {
 		log.Debug("sending a replication message to %s", ip)
+		verifhook.At("repl.fanout.send")
 		channel <- transactionGroup
 	}
 }
